@@ -170,13 +170,14 @@ def _sh_p2(tier):
 
 
 def _sh_p3(tier):
-    return product_pins(h0=[0, 1], l0=[0, 1, 2], s0=[0, 1, 2, 3], h1=[0, 1], perm=[0, 5])
+    return product_pins(h0=[0, 1], l0=[0, 1, 2], s0=[0, 1, 2, 3], h1=[0, 1], perm=[0]) + \
+        product_pins(h0=[1], l0=[0, 1, 2], s0=[0, 1, 2, 3], h1=[1], perm=[5])
 
 
 def _sh_b4(tier):
     if tier == "quick":
         return product_pins(l0=[3], l1=[3], s0=[1, 2], s1=[0, 1, 2, 3], h1=[0, 1])
-    return product_pins(l0=[3, 4], l1=[3, 4], s0=[0, 1, 2, 3], s1=[0, 1, 2, 3], h1=[0, 1])
+    return product_pins(l0=[3], l1=[3, 4], s0=[1, 2], s1=[0, 1, 2, 3], h1=[0, 1])
 
 
 FUNCS = ["CFG.remove_useless_symbols", "CFG.remove_epsilon", "CFG.eliminate_unit_productions",
